@@ -569,6 +569,10 @@ func (s *setSubj[T]) doRead(op Op, other *setSubj[T]) string {
 			}
 			return strconv.FormatBool(s.s.Contains(many...))
 		}
+		if a[2] == 5 { // one argument slice shared by all callers (spread)
+			sh := sharedArgs(d)
+			return strconv.FormatBool(s.s.Contains(sh[:2+a[1]%(len(sh)-1)]...))
+		}
 		return strconv.FormatBool(s.s.Contains(d.At(a[0]))) + strconv.FormatBool(s.s.Contains(d.At(a[0]), d.At(a[1])))
 	case "Size":
 		return strconv.Itoa(s.s.Size())
